@@ -37,6 +37,7 @@ class SeqGen:
         self.ops, self.trace = [], []
         self.obs = []
         self.intended_fail = 0
+        self.pairs = []        # (original, copy) handles
 
     # -- helpers on the last observation (model-value form, tuples)
     def graphs(self): return [h for h, o in enumerate(self.obs) if o[0] == "ObsG"]
@@ -284,13 +285,31 @@ class SeqGen:
         self.ops.append(op); self.trace.append((res, self.obs))
         return res
 
+    def eq_pair(self, h):
+        """an == call involving h and one of its copies / its original (either order)"""
+        c = [p for p in self.pairs if h in p]
+        if not c: return None
+        a, b = self.rng.choice(c)
+        return ("EqOp", (a, b)) if self.rng.random() < 0.5 else ("EqOp", (b, a))
+
     def generate(self, length):
         while len(self.ops) < length:
             op = self.choose()
+            if op[0] == "EqOp" and self.pairs and self.rng.random() < 0.6:
+                op = self.eq_pair(self.rng.choice(self.pairs)[0])
             n0 = len(self.obs)
             res = self.push(op)
-            if op[0] == "Copy" and res == ("ROk",) and len(self.ops) < length:
-                self.push(("EqOp", (op[1], n0)) if self.rng.random() < 0.5 else ("EqOp", (n0, op[1])))
+            if op[0] == "Copy" and res == ("ROk",):
+                self.pairs.append((op[1], n0))
+                # the copies of the rhs graphs pair up with their originals
+                if self.obs[n0][0] == "ObsH":
+                    for r0, r1 in zip(self.obs[op[1]][1][0][1], self.obs[n0][1][0][1]):
+                        self.pairs.append((r0[1][1], r1[1][1]))
+                if len(self.ops) < length: self.push(self.eq_pair(n0))
+            elif op[0] != "EqOp" and len(op) > 1 and isinstance(op[1], tuple) and len(self.ops) < length \
+                    and self.rng.random() < 0.35:
+                e = self.eq_pair(op[1][0])       # after touching an object that has a copy: compare them
+                if e is not None: self.push(e)
         return self.ops, self.trace
 
 # ------------------------------------------------------------------------------- exhaustive sequences
@@ -307,14 +326,14 @@ def reduced_universe(tier):
         ("SetExt", (0, [("NVal", ax)])), ("SetExt", (0, [("NVal", bx)])), ("SetExt", (0, [])),
         ("RemoveNode", (0, ax)),
         ("RemoveEdge", (0, edge(fA, [ax], EX(0)))),
-        ("Copy", 0), ("Copy", 1),
+        ("Copy", 0), ("Copy", 1), ("EqOp", (0, 2)),
         ("AddRule", (1, XA, 0)), ("NewRule", (1, 1, 0)), ("AddRule", (1, X0, 0)),
         ("AddEdgeLabel", (1, fB)),
     ]
     if tier != "quick":
         ops += [
             ("NewNode", (0, A, ("IdNone",))), ("AddEdge", (0, XA, [("NVal", ay)], ("IdNone",))),
-            ("EqOp", (0, 2)), ("SetStart", (1, ("SName", 0))),
+            ("SetStart", (1, ("SName", 0))),
             ("RemoveNode", (0, bx)), ("EqOp", (1, 2)), ("SetStart", (1, ("SLabel", XA))), ("AddEdgeLabel", (0, fB)),
             ("AddNode", (0, ("NFresh", B))),
             ("NewEdge", (0, 1, [], False, True, ("IdNone",))),
